@@ -1,8 +1,95 @@
 (** CmdC19.v — command table of the model runner for property C19
-    (commands 1900 .. 1999 of [run_cmd]; local number = c mod 100). *)
-From JSL Require Import Base.
+    (commands 1900 .. 1999 of [run_cmd]; local number = c mod 100).
+
+    params   = [jlo; jhi; mlo; mhi; dlo; dhi; klo; khi; allow_less; recirc; suffix; limit?]
+    instance = list of jobs, job = list of [machines; duration]
+    action   = [0; oj?; om?] generate | [1] iter | [2] next | [3; fuel] list | [4; avail?] create op
+    event    = [0; params index; own?; k] new generator (own? = the stream of its private RNG;
+                                          k = draws of the shared RNG before this event)
+             | [1; i; action]
+             | [2; k] unrelated use of the module-level RNG
+    output   = [0] nothing | [1; name; instance] | [2; list of [name; instance]] | [3; op; avail?]
+             | [4] StopIteration | [5; e] raised | [6] stream exhausted / contract broken *)
+From JSL Require Import Base Instance Generator GeneratorSpec.
+
+Definition dec_params (v : val) : params :=
+  mkparams (asN (vnth v 0)) (asN (vnth v 1)) (asN (vnth v 2)) (asN (vnth v 3))
+           (asZ (vnth v 4)) (asZ (vnth v 5)) (asN (vnth v 6)) (asN (vnth v 7))
+           (asB (vnth v 8)) (asB (vnth v 9)) (asLof asZ (vnth v 10)) (asOpt asN (vnth v 11)).
+
+Definition enc_oper (o : op) : val := VL [vlist vnat (machines o); VI (duration o)].
+Definition enc_instance (I : instance) : val := vlist (vlist enc_oper) I.
+Definition enc_ginst (x : ginst) : val := VL [vlist VI (fst x); enc_instance (snd x)].
+
+Definition dec_action (v : val) : action :=
+  match asZ (vnth v 0) with
+  | 0 => AGenerate (asOpt asN (vnth v 1)) (asOpt asN (vnth v 2))
+  | 1 => AIter
+  | 2 => ANext
+  | 3 => AList (asN (vnth v 1))
+  | _ => ACreateOp (asOpt (asLof asN) (vnth v 1))
+  end.
+
+Definition enc_output (o : output) : val :=
+  match o with
+  | ONone => VL [VI 0]
+  | OInst x => VL (VI 1 :: asL (enc_ginst x))
+  | OList xs => VL [VI 2; vlist enc_ginst xs]
+  | OOp o avail => VL [VI 3; enc_oper o; vopt (vlist vnat) avail]
+  | OStop => VL [VI 4]
+  | OExn e => VL [VI 5; VI e]
+  | OBad => VL [VI 6]
+  end.
+
+Definition dec_event (ps : list params) (gl : stream) (v : val) : event :=
+  match asZ (vnth v 0) with
+  | 0 => ENew (nth (asN (vnth v 1)) ps (dec_params (VL [])))
+              (asOpt (asLof asZ) (vnth v 2)) (skipn (asN (vnth v 3)) gl)
+  | 1 => EAct (asN (vnth v 1)) (dec_action (vnth v 2))
+  | _ => EOther (skipn (asN (vnth v 1)) gl)
+  end.
+
+(** 1: a whole scenario on the world of generators (repaired library).
+    [params list; shared stream; events] -> [outputs; draws left in the shared
+    stream; draws left per generator]. *)
+Definition cmd_scenario (v : val) : val :=
+  let ps := asLof dec_params (vnth v 0) in
+  let gl := asLof asZ (vnth v 1) in
+  let es := map (dec_event ps gl) (asL (vnth v 2)) in
+  let r := run (empty_world gl) es in
+  VL [vlist enc_output (fst r);
+      vnat (length (w_global (snd r)));
+      vlist (fun x => vnat (length (st_rng (g_st x)))) (w_gens (snd r))].
+
+(** 2: single calls: list of [params; counter; iteration; action; draws] ->
+    list of [output; draws left; counter; iteration]. *)
+Definition cmd_calls (v : val) : val :=
+  vlist (fun c =>
+    let p := dec_params (vnth c 0) in
+    let r := act p (dec_action (vnth c 3))
+                 (mkgst (asLof asZ (vnth c 4)) (asN (vnth c 1)) (asN (vnth c 2))) in
+    VL [enc_output (fst r); vnat (length (st_rng (snd r)));
+        vnat (st_counter (snd r)); vnat (st_iter (snd r))]) (asL v).
+
+(** 3: the oracle: list of [params; instance] -> the clauses of [shapeb]. *)
+Definition cmd_shape (v : val) : val :=
+  vlist (fun c => vlist vbool (shape_clauses (dec_params (vnth c 0)) (dec_instance (vnth c 1)))) (asL v).
+
+(** 4: [names; list of params] -> [names pairwise distinct; wf_paramsb of each]. *)
+Definition cmd_names (v : val) : val :=
+  VL [vbool (nodup_nameb (asLof (asLof asZ) (vnth v 0)));
+      vlist (fun c => vbool (wf_paramsb (dec_params c))) (asL (vnth v 1))].
+
+(** 5: list of [params; instance] -> the stream that spells the instance out. *)
+Definition cmd_encode (v : val) : val :=
+  vlist (fun c => vlist VI (encode (dec_params (vnth c 0)) (dec_instance (vnth c 1)))) (asL v).
 
 Definition run_c19 (c : Z) (v : val) : val :=
   match c with
+  | 1 => cmd_scenario v
+  | 2 => cmd_calls v
+  | 3 => cmd_shape v
+  | 4 => cmd_names v
+  | 5 => cmd_encode v
   | _ => VL []
   end.
